@@ -14,6 +14,7 @@ import (
 	"net/url"
 	"reflect"
 	"regexp"
+	"sort"
 	"strconv"
 	"strings"
 
@@ -1393,8 +1394,20 @@ func UrlencodedBodyDecoder(body io.Reader, header http.Header, schema *openapi3.
 	obj := make(map[string]any)
 	dec := &urlValuesDecoder{values: values}
 
-	if err := decodeSchemaConstructs(dec, []*openapi3.SchemaRef{schema}, obj, encFn); err != nil {
+	undecoded := make(map[string]error)
+	if err := decodeSchemaConstructs(dec, []*openapi3.SchemaRef{schema}, obj, encFn, undecoded); err != nil {
 		return nil, err
+	}
+	// a member that is in the form and that no schema declaring it could read is not a member to drop
+	names := make([]string, 0, len(undecoded))
+	for name := range undecoded {
+		if _, decoded := obj[name]; !decoded {
+			names = append(names, name)
+		}
+	}
+	if len(names) > 0 {
+		sort.Strings(names)
+		return nil, &ParseError{path: []any{names[0]}, Kind: KindInvalidFormat, Cause: undecoded[names[0]]}
 	}
 
 	return obj, nil
@@ -1402,23 +1415,25 @@ func UrlencodedBodyDecoder(body io.Reader, header http.Header, schema *openapi3.
 
 // decodeSchemaConstructs tries to decode properties based on provided schemas.
 // This function is for decoding purposes only and not for validation.
-func decodeSchemaConstructs(dec *urlValuesDecoder, schemas []*openapi3.SchemaRef, obj map[string]any, encFn EncodingFn) error {
+func decodeSchemaConstructs(dec *urlValuesDecoder, schemas []*openapi3.SchemaRef, obj map[string]any, encFn EncodingFn, undecoded map[string]error) error {
 	for _, schemaRef := range schemas {
 
 		// Decode schema constructs (allOf, anyOf, oneOf)
-		if err := decodeSchemaConstructs(dec, schemaRef.Value.AllOf, obj, encFn); err != nil {
+		if err := decodeSchemaConstructs(dec, schemaRef.Value.AllOf, obj, encFn, undecoded); err != nil {
 			return err
 		}
-		if err := decodeSchemaConstructs(dec, schemaRef.Value.AnyOf, obj, encFn); err != nil {
+		if err := decodeSchemaConstructs(dec, schemaRef.Value.AnyOf, obj, encFn, undecoded); err != nil {
 			return err
 		}
-		if err := decodeSchemaConstructs(dec, schemaRef.Value.OneOf, obj, encFn); err != nil {
+		if err := decodeSchemaConstructs(dec, schemaRef.Value.OneOf, obj, encFn, undecoded); err != nil {
 			return err
 		}
 
 		for name, prop := range schemaRef.Value.Properties {
 			value, found, err := decodeProperty(dec, name, prop, encFn)
 			if err != nil {
+				// another schema that declares the member may still read it
+				undecoded[name] = err
 				continue
 			}
 			if !found && isNilValue(value) {
